@@ -92,6 +92,16 @@ pub fn flag_waker() -> (Arc<FlagWaker>, Waker) {
     (f.clone(), Waker::from(f))
 }
 
+thread_local! {
+    static TASK_WAKER: (Arc<FlagWaker>, Waker) = flag_waker();
+}
+/// One waker per worker thread that outlives every history run on it: "the same task" polling one object after
+/// another (anything the library remembers about a waker across objects - a registration cache keyed by an
+/// address that a later object re-uses - meets the very same waker again). Wakes are judged by counts.
+pub fn task_waker() -> (Arc<FlagWaker>, Waker) {
+    TASK_WAKER.with(|w| (w.0.clone(), w.1.clone()))
+}
+
 pub fn flag_waker_unpark() -> (Arc<FlagWaker>, Waker) {
     let f = Arc::new(FlagWaker { wakes: AtomicU64::new(0), thread: Some(std::thread::current()) });
     (f.clone(), Waker::from(f))
